@@ -151,6 +151,10 @@ def _mk(rp, impl):
 
 
 def run(ctx):
+    if ctx.shard == 0:  # the repository's own pinned examples as one more workload (outcomes ignored)
+        from ..repotests import run_repo_tests
+
+        run_repo_tests(ctx, ("tags",))
     rnd = ctx.rnd
     full = ctx.tier == "thorough"
     pool = rp_pool(rnd, 60 if full else 12)
@@ -199,6 +203,11 @@ def run(ctx):
 
 
 def replay(ctx, case):
+    if isinstance(case, dict) and case.get("kind") == "repo-test":
+        from ..repotests import run_repo_tests
+
+        run_repo_tests(ctx, nodeid=case["nodeid"])
+        return
     spec = _mk(case["requires_python"], tuple(case["impl"]) if case.get("impl") else None)
     if case["kind"] == "one":
         spec.compatibility(case["py"], case["abi"], ["any"])
